@@ -256,8 +256,9 @@ Section Tree.
       - destruct x as [|p| | | | |]; try discriminate; [congruence|].
         split; [eapply es_leaf; exact Hf|]. rewrite (e_atoms_leaf _ _ _ Hf). discriminate. }
     destruct x as [|p|tt l|cl fs|q0 tx tl at0 ch|q0 v0 ty|mm]; [constructor| | | | | |].
-    all: destruct (is_array _ && negb (py_truthy _)) eqn:Ene; [constructor|].
-    all: destruct (ign && opt_skip var _); [constructor|].
+    6:{ exfalso. unfold Fits.fits_attr in Hf. destruct (v_tokens_factory var); discriminate Hf. }
+    all: destruct (is_array _ && negb (py_truthy _)) eqn:Ene; [cbn [map]; constructor|].
+    all: destruct (ign && opt_skip var _); [cbn [map]; constructor|].
     all: cbn [map fst snd]; constructor; [|constructor].
     all: destruct Hsh as [Hsh Hne]; [discriminate|reflexivity|].
     all: apply attr_rel_one; assumption.
@@ -337,44 +338,86 @@ Section Tree.
     pose proof (class_pairs_fits c u ok _ _ cl fs m Hwc Hnames Hfe) as Hps.
     set (gks := flat_map (fun vv => g_field c u (gobj n) (fst vv) (snd vv)) (pairs cl fs m)).
     (* attributes *)
+    assert (Hmapv : forall var, is_mapvar m var ->
+              exists mm, field_of fs var = VMap mm /\ NoDup (map fst mm)
+                /\ forall kv, In kv mm -> assoc (fst kv) (m_attributes m) = None /\ reserved_name (fst kv) = false).
+    { intros var [Hav Hwv]. destruct (fits_map_inv ok m var _ (fits_mapvar c u ok pyspace n cl fs m var Hfit Hm Hav)) as [mm [E [Hnd Hall]]].
+      exists mm. split; [exact E|]. split; [exact Hnd|]. intros kv Hkv. destruct (Hall kv Hkv) as [_ [H1 [H2 _]]]. split; assumption. }
     assert (Hrel0 : Forall2 attr_rel (map (fun a => (of_qname (fst a), of_wval c (snd a))) gats0)
                      (flat_map (fun var => e_attr c u ign var (field_of fs var)) (get_attribute_vars m))).
     { unfold gats0. rewrite map_flat_map_l. apply Forall2_flat_map. intros var Hin.
-      destruct (wf_class_avar m var Hwc Hin) as [Hwa Hina]. apply attr_rel_field; [exact Hwa|].
-      apply (Hfa _ Hina). }
+      destruct (wf_class_avar m var Hwc Hin) as [[Hwa Hina]|Hmv].
+      - apply attr_rel_field; [exact Hwa|]. apply (Hfa _ Hina).
+      - destruct (Hmapv var Hmv) as [mm [E [_ Hall]]]. rewrite E. cbn [g_attr e_attr]. clear E.
+        induction mm as [|kv mm IHmm]; [constructor|]. cbn [map]. constructor.
+        + unfold attr_rel. cbn [fst snd of_wval of_prim attr_atoms].
+          destruct (Hall kv (or_introl eq_refl)) as [_ Hr].
+          assert (Hnt : qname_eqb (of_qname (fst kv)) q_xsi_type = false).
+          { rewrite <- split_xsi_type. apply qname_eqb_split. intros E. unfold reserved_name in Hr.
+            rewrite E, str_eqb_refl, orb_true_r in Hr. discriminate. }
+          rewrite Hnt. cbn [andb]. repeat split.
+        + apply IHmm. intros kv' Hkv'. apply Hall. right; exact Hkv'. }
     assert (Hrel : Forall2 attr_rel (map (fun a => (of_qname (fst a), of_wval c (snd a))) gats)
                      (flat_map (fun var => e_attr c u ign var (field_of fs var)) (get_attribute_vars m) ++ xsi_attr_e xsi)).
     { unfold gats. rewrite map_app. apply Forall2_app; [exact Hrel0|].
       destruct xsi as [[|ch xq]|]; cbn [xsi_attr_g xsi_attr_e map]; try constructor; [|constructor].
       unfold attr_rel. cbn [fst snd]. repeat split. }
-    assert (Hkeys : forall var, In var (get_attribute_vars m) ->
-              e_attr c u ign var (field_of fs var) = []
-              \/ exists b, e_attr c u ign var (field_of fs var) = [b] /\ fst b = Bind.split_qname (v_qname var)).
-    { intros var _. unfold e_attr. destruct (field_of fs var); try (left; reflexivity);
-        (destruct (is_array _ && negb (py_truthy _)); [left; reflexivity|];
-         destruct (ign && opt_skip var _); [left; reflexivity|]; right; eexists; split; reflexivity). }
+    (* the keys: declared attributes by their (distinct) names, map entries by their (distinct) keys that no
+       declared attribute claims *)
+    assert (Hkeys : forall e, In e (m_attributes m) ->
+              e_attr c u ign (snd e) (field_of fs (snd e)) = []
+              \/ exists b, e_attr c u ign (snd e) (field_of fs (snd e)) = [b] /\ fst b = Bind.split_qname (fst e)).
+    { intros e He. destruct (wf_class_inv m Hwc) as [F1 F2 F3 F4 F5 F6 F7 F8 F9 F10 F11 F12 F13].
+      rewrite forallb_forall in F9. specialize (F9 e He). apply andb_true_iff in F9 as [Hq Hw]. apply str_eqb_eq in Hq.
+      pose proof (Hfa e He) as Hfv.
+      unfold e_attr. destruct (field_of fs (snd e)) eqn:Ex; try (left; reflexivity).
+      6:{ exfalso. unfold Fits.fits_attr in Hfv. destruct (v_tokens_factory (snd e)); discriminate Hfv. }
+      all: (destruct (is_array _ && negb (py_truthy _)); [left; reflexivity|];
+            destruct (ign && opt_skip (snd e) _); [left; reflexivity|]; right; eexists; split; [reflexivity|]; change (Bind.split_qname (v_qname (snd e)) = Bind.split_qname (fst e)); f_equal; exact Hq). }
     assert (Hnd0 : NoDup (map fst (flat_map (fun var => e_attr c u ign var (field_of fs var)) (get_attribute_vars m)))).
-    { apply (nodup_flat_opt (fun var => Bind.split_qname (v_qname var)) fst); [|exact Hkeys].
-      destruct (wf_class_inv m Hwc) as [F1 F2 F3 F4 F5 F6 F7 F8 F9 F10 F11 F12 F13].
-      rewrite (avars_eq m Hwc). apply (sort_nodup_map (fun var => Bind.split_qname (v_qname var))).
-      rewrite map_map.
-      assert (E : map (fun x => Bind.split_qname (v_qname (snd x))) (m_attributes m)
-                  = map Bind.split_qname (map fst (m_attributes m))).
-      { rewrite map_map. apply map_ext_in. intros e He. pose proof F9 as Hall.
-        rewrite forallb_forall in Hall. specialize (Hall e He). apply andb_true_iff in Hall as [Hq _].
-        apply str_eqb_eq in Hq. cbn beta. f_equal. exact Hq. }
-      rewrite E. apply FinFun.Injective_map_NoDup; [|exact F10].
-      intros a0 b0. apply split_qname_inj. }
+    { destruct (wf_class_inv m Hwc) as [F1 F2 F3 F4 F5 F6 F7 F8 F9 F10 F11 F12 F13].
+      rewrite (avars_eq m Hwc).
+      eapply Permutation.Permutation_NoDup.
+      { apply Permutation.Permutation_map. apply Permutation.Permutation_flat_map. apply Permutation.Permutation_sym. apply sort_perm. }
+      rewrite flat_map_app, map_app.
+      assert (Hdecl : NoDup (map fst (flat_map (fun var => e_attr c u ign var (field_of fs var)) (map snd (m_attributes m))))).
+      { rewrite flat_map_map.
+        apply (nodup_flat_opt (fun e : qname * xvar => Bind.split_qname (fst e)) fst); [|exact Hkeys].
+        rewrite <- (map_map fst Bind.split_qname). apply FinFun.Injective_map_NoDup; [|exact F10].
+        intros a0 b0. apply split_qname_inj. }
+      destruct F3 as [E|[av [E Hwv]]]; rewrite E; cbn [flat_map app map]; [exact Hdecl|]. rewrite app_nil_r.
+      destruct (Hmapv av (conj E Hwv)) as [mm [Ex [Hndm Hall]]]. rewrite Ex. cbn [e_attr].
+      apply NoDup_app_intro'; [|exact Hdecl|].
+      - rewrite map_map. cbn [fst]. rewrite <- (map_map fst Bind.split_qname).
+        apply FinFun.Injective_map_NoDup; [|exact Hndm]. intros a0 b0. apply split_qname_inj.
+      - intros x Hx1 Hx2. rewrite map_map in Hx1. cbn [fst] in Hx1. apply in_map_iff in Hx1 as [kv [Ek Hkv]].
+        apply in_map_iff in Hx2 as [b1 [Eb Hb1]]. apply in_flat_map in Hb1 as [var [Hvar Hb1]].
+        apply in_map_iff in Hvar as [e [Ee He]]. subst var.
+        destruct (Hkeys e He) as [E0|[b2 [E0 Hk2]]]; rewrite E0 in Hb1; [destruct Hb1|]. destruct Hb1 as [<-|[]].
+        rewrite Hk2 in Eb. rewrite <- Eb in Ek. apply split_qname_inj in Ek.
+        destruct (Hall kv Hkv) as [Hna _].
+        destruct (assoc_some_in (fst kv) (m_attributes m)) as [v0 Hv0]; [rewrite Ek; apply in_map; exact He|congruence]. }
     assert (Hnores : forall a, In a (flat_map (fun var => e_attr c u ign var (field_of fs var)) (get_attribute_vars m)) ->
                 fst a <> q_xsi_nil /\ fst a <> Bind.split_qname XSI_TYPE).
     { intros a Ha. apply in_flat_map in Ha as [var [Hvar Ha]].
-      destruct (Hkeys var Hvar) as [E|[b1 [E Hk]]]; rewrite E in Ha; [destruct Ha|]. destruct Ha as [<-|[]].
-      destruct (wf_class_avar m var Hwc Hvar) as [Hwa _]. destruct (wf_attr_inv var Hwa) as [_ [_ [_ [_ [Hr _]]]]].
-      rewrite Hk. split.
-      - rewrite <- split_xsi_nil. intros Es. apply split_qname_inj in Es.
-        unfold reserved_name in Hr. rewrite Es, str_eqb_refl in Hr. discriminate.
-      - intros Es. apply split_qname_inj in Es.
-        unfold reserved_name in Hr. rewrite Es, str_eqb_refl, orb_true_r in Hr. discriminate. }
+      assert (Hres : forall k, In a (e_attr c u ign var (field_of fs var)) -> fst a = Bind.split_qname k -> reserved_name k = false ->
+                fst a <> q_xsi_nil /\ fst a <> Bind.split_qname XSI_TYPE).
+      { intros k _ Hk Hr. rewrite Hk. split.
+        - rewrite <- split_xsi_nil. intros Es. apply split_qname_inj in Es.
+          unfold reserved_name in Hr. rewrite Es, str_eqb_refl in Hr. discriminate.
+        - intros Es. apply split_qname_inj in Es.
+          unfold reserved_name in Hr. rewrite Es, str_eqb_refl, orb_true_r in Hr. discriminate. }
+      destruct (wf_class_avar m var Hwc Hvar) as [[Hwa Hina]|Hmv].
+      - destruct (Hkeys _ Hina) as [E|[b1 [E Hk]]]; cbn [snd] in E; rewrite E in Ha; [destruct Ha|]. destruct Ha as [<-|[]].
+        destruct (wf_attr_inv var Hwa) as [_ [_ [_ [_ [Hr _]]]]]. cbn [fst] in Hk.
+        apply (Hres (v_qname var)); [rewrite E; left; reflexivity|exact Hk|exact Hr].
+      - destruct (Hmapv var Hmv) as [mm [Ex [_ Hall]]]. rewrite Ex in Ha. cbn [e_attr] in Ha.
+        apply in_map_iff in Ha as [kv [<- Hkv]]. destruct (Hall kv Hkv) as [_ Hr]. cbn [fst].
+        split.
+        + rewrite <- split_xsi_nil. intros Es. apply split_qname_inj in Es.
+          unfold reserved_name in Hr. rewrite Es, str_eqb_refl in Hr. discriminate.
+        + intros Es. apply split_qname_inj in Es.
+          unfold reserved_name in Hr. rewrite Es, str_eqb_refl, orb_true_r in Hr. discriminate. }
     assert (Hnd : NoDup (map fst (flat_map (fun var => e_attr c u ign var (field_of fs var)) (get_attribute_vars m) ++ xsi_attr_e xsi))).
     { rewrite map_app. destruct xsi as [[|ch xq]|]; cbn [xsi_attr_e map]; rewrite ?app_nil_r; try exact Hnd0.
       apply NoDup_app_intro'; [exact Hnd0|constructor; [intros []|constructor]|].
